@@ -488,8 +488,6 @@ class DebuggedApplication:
 
         # Otherwise go through pin based authentication
         else:
-            entered_pin = request.args["pin"]
-            matches = entered_pin.strip().replace("-", "") == pin.replace("-", "")
             failed = False
 
             # Check and update the counter in one step, so that concurrent
@@ -500,7 +498,9 @@ class DebuggedApplication:
                 # If we failed too many times, then we're locked out.
                 if count > 10:
                     exhausted = True
-                elif matches:
+                elif request.args["pin"].strip().replace("-", "") == pin.replace(
+                    "-", ""
+                ):
                     self._failed_pin_auth.value = 0
                     auth = True
                 else:
